@@ -25,7 +25,7 @@ def main(argv):
     if tier not in ('quick', 'thorough'):
         tier = os.environ.get('VERIF_TIER', 'quick')
     rep = common.Report(prop, tier, seed)
-    common.WORK.mkdir(exist_ok=True)
+    common.WORK.mkdir(parents=True, exist_ok=True)
     try:
         proof = common.static_obligations(rep, prop, tier)
         common.fresh_cwd(prop)
